@@ -488,7 +488,10 @@ def gen_class(out, ind, depth=0):
         is_func = False
         if r < 0.2:
             if lang in ("JavaScript", "TypeScript"):
-                out.line((" " * (ind + 2), None, False), (rnd.choice(["x = 1;", "static y = {a: 1};", "z;"]), None, True))
+                # fields, and members whose name is not an identifier (every other shape a member name admits: string, number,
+                # computed from literals) with no named parameter: not NAMED functions
+                out.line((" " * (ind + 2), None, False), (rnd.choice(["x = 1;", "static y = {a: 1};", "z;", "['on-click']() { g(1); }", "[0]() { return 1; }",
+                                                                        "static ['k' + 1]() {}", "'a-b'() { g(2); }", "42() {}", "[`item`]() { g(3); }"]), None, True))
             else:
                 out.line((" " * (ind + 2), None, False), (rnd.choice(["int x = 1;", "static int[] y = {1, 2};", "int z;"]), None, True))
         elif r < 0.3 and lang == "TypeScript":
@@ -540,6 +543,30 @@ def gen_macro(out):
         out.line((text, None, False))
 
 
+def gen_linkage_block(out):
+    """a brace block at file scope that is neither a function nor a class: the linkage guard `extern "C" { ... }` of C and
+    C++ sources (with or without the `#ifdef __cplusplus` lines around its two brace lines); the definitions inside are
+    ordinary top-level functions and global code, indented or not"""
+    rnd = out.rnd
+    guard = rnd.random() < 0.6
+    if guard:
+        out.line(("#ifdef __cplusplus", None, False))
+    out.line((rnd.choice(['extern "C" {', 'extern "C" {', 'extern "C"  {']), None, True))
+    if guard:
+        out.line(("#endif", None, False))
+    ind = rnd.choice([0, 0, 2])
+    for _ in range(rnd.randint(1, 3)):
+        if rnd.random() < 0.25:
+            out.line((" " * ind, None, False), (global_stmt(out.lang, rnd), None, True))
+        else:
+            gen_func(out, None, ind, 0, where="global")
+    if guard:
+        out.line(("#ifdef __cplusplus", None, False))
+    out.line(("}", None, True))
+    if guard:
+        out.line(("#endif", None, False))
+
+
 def gen_brace_program(lang, rnd, size=None, sweep=None, min_lines=None, count=1, names=None, name_share=0.5, extras=False):
     out = Out(lang, rnd)
     out.names, out.name_share, out.extras = names, name_share, extras
@@ -563,6 +590,9 @@ def gen_brace_program(lang, rnd, size=None, sweep=None, min_lines=None, count=1,
         noise(out, 0, None)
         if out.extras and lang in ("C", "C++") and rnd.random() < 0.25:
             gen_macro(out)
+        if out.extras and lang in ("C", "C++") and rnd.random() < 0.15:
+            gen_linkage_block(out)
+            continue
         r = rnd.random()
         if lang in ("Java", "C#"):
             if r < 0.2:
@@ -743,7 +773,8 @@ def generate(lang, rnd, size=None, sweep=None, stubs=False, min_lines=None, coun
     items (functions, classes, global code) until the program has at least that many lines (size ladder over the number of
     functions); `names`: pool of function names drawn WITH replacement for `name_share` of the functions (duplicate
     names, overloads, words that are keywords in another language); `extras`: Python backslash continuations whose
-    following line is indented anyhow (also left of the enclosing header), C / C++ multi-line macros as global code"""
+    following line is indented anyhow (also left of the enclosing header), C / C++ multi-line macros as global code and
+    `extern "C" { ... }` linkage blocks around top-level definitions"""
     if lang == "Python":
         return gen_python_program(rnd, size, sweep, stubs, min_lines, count, names, name_share, extras)
     return gen_brace_program(lang, rnd, size, sweep, min_lines, count, names, name_share, extras)
